@@ -74,6 +74,11 @@ def run_shard(spec, ctx):
         if big:
             names = ["psbytes"] + [r.choice([e.name for e in layers.ENCODERS[:-1]]) for _ in range(h - 1)]
             rec = layers.build_stack(r, h, names=names, pad_to=520)
+        elif r.random() < 0.012:
+            # payloads longer than any plausible fixed limit (8191, 64 KiB) under one to three layers
+            rec = layers.build_stack(r, min(h, 3), pad_to=r.choice([3000, 9000, 30000, 70000]), max_blob=1500000)
+            if rec is not None:
+                ctx.count("long_payload_stacks")
         else:
             rec = layers.build_stack(r, h)
         if rec is None:
